@@ -184,6 +184,68 @@ Decode(syms, nv, nf, nss, ev, sb) ==
   IF r.d.out # "run" THEN [out |-> r.d.out, np |-> 0, faces |-> <<>>]
   ELSE [out |-> "acc", np |-> r.nvs, faces |-> [c \in 1..(3 * nf) |-> r.d.ctv[c - 1]]]
 
+\* ---------------------------------------------------------------- the valence traversal (MeshEdgebreakerTraversalValenceDecoder)
+\* The symbols are not one string: they sit in 6 context vectors (one per clamped valence 2..7 of the vertex the traversal is about to
+\* reach), the first symbol is E by definition, every later symbol is popped from the back of the context selected by
+\* NewActiveCornerReached after the previous symbol; an empty context yields TOPOLOGY_INVALID.  vertex_valences_ has exactly
+\* maxv = declared vertices + declared split symbols entries.  The model replays a symbol string with an oracle and records which context
+\* each symbol was popped from: the assembled stream stores exactly these vectors, so the real decoder must read the same string.
+SymId(s) == CASE s = "C" -> 0 [] s = "S" -> 1 [] s = "L" -> 2 [] s = "R" -> 3 [] OTHER -> 4
+AddVal(val, v, k) == [val EXCEPT ![v + 1] = @ + k]
+\* valence bookkeeping after symbol s (the active corner is the new top of the stack); returns [ub, val, actx]
+ValUpd(d, val, s) ==
+  LET c == Top(d) vc_ == Vtx(d, c) vn == Vtx(d, Nx(c)) vp == Vtx(d, Pv(c))
+      inc == CASE s = "C" \/ s = "S" -> <<0, 1, 1>> [] s = "R" -> <<1, 1, 2>> [] s = "L" -> <<1, 2, 1>> [] OTHER -> <<2, 2, 2>> IN
+  IF (inc[1] > 0 /\ vc_ = INV) \/ vn = INV \/ vp = INV THEN [ub |-> TRUE, val |-> val, actx |-> -1] ELSE
+  LET v1 == IF inc[1] > 0 THEN AddVal(val, vc_, inc[1]) ELSE val
+      v2 == AddVal(AddVal(v1, vn, inc[2]), vp, inc[3])
+      a == v2[vn + 1]
+      cl == IF a < 2 THEN 2 ELSE IF a > 7 THEN 7 ELSE a IN
+  [ub |-> FALSE, val |-> v2, actx |-> cl - 2]
+\* state: d (as above), val, actx, log = sequence of <<context, symbol id>> in read order
+RECURSIVE DecSymsV(_,_,_,_,_,_,_)
+DecSymsV(d, val, actx, log, rs, nsym, maxv) ==
+  IF d.out # "run" \/ rs = <<>> THEN [d |-> d, log |-> log] ELSE
+  LET s == Head(rs)
+      log2 == IF actx = -1 THEN log ELSE Append(log, <<actx, SymId(s)>>)
+      \* S merges the valences of the two vertices it glues before anything else can fail on them
+      pre == IF s = "S" /\ d.stack # <<>> THEN
+                LET b == Top(d) st0 == SubSeq(d.stack, 1, Len(d.stack) - 1)
+                    st1 == IF HasAct(d, d.sid) THEN Append(st0, ActOf(d, d.sid)) ELSE st0 IN
+                IF st1 = <<>> THEN [ub |-> FALSE, val |-> val] ELSE
+                LET a == st1[Len(st1)] p == Vtx(d, Pv(a)) n == Vtx(d, Nx(b)) IN
+                IF a = b \/ Opp(d, a) # INV \/ Opp(d, b) # INV THEN [ub |-> FALSE, val |-> val]
+                ELSE IF p = INV \/ n = INV THEN [ub |-> TRUE, val |-> val]
+                ELSE [ub |-> FALSE, val |-> AddVal(val, p, val[n + 1])]
+             ELSE [ub |-> FALSE, val |-> val] IN
+  IF pre.ub THEN [d |-> Stop(d, "ub:V-merge(invalid vertex)"), log |-> log2] ELSE
+  LET d1 == DecSym(d, s, nsym, maxv) IN
+  IF d1.out # "run" THEN [d |-> d1, log |-> log2] ELSE
+  \* NewActiveCornerReached runs before the split loop of the code, but the split loop does not touch the corner table: same result
+  LET u == ValUpd(d1, pre.val, s) IN
+  IF u.ub THEN [d |-> Stop(d1, "ub:V-valence(invalid vertex)"), log |-> log2]
+  ELSE DecSymsV(d1, u.val, u.actx, log2, Tail(rs), nsym, maxv)
+\* context vectors in STORAGE order (the decoder pops from the back): the symbols read from context k, reversed;
+\* symbols the oracle never got to are parked in front of context 0 (never reached)
+CtxOf(log, k) == LET I == SelectSeq(log, LAMBDA e : e[1] = k) IN [i \in 1..Len(I) |-> I[Len(I) - i + 1][2]]
+DecodeV(syms, nv, nf, nss, ev, sb) ==
+  LET nsym == Len(syms) h == Header(nv, nf, nsym, nss, Len(ev))
+      none == [k \in 1..6 |-> <<>>] IN
+  IF h # "ok" THEN [out |-> h, np |-> 0, faces |-> <<>>, ctx |-> none] ELSE
+  IF ~EventsOK(ev) THEN [out |-> "rej:event-delta", np |-> 0, faces |-> <<>>, ctx |-> none] ELSE
+  IF syms # <<>> /\ Head(syms) # "E" THEN [out |-> "skip", np |-> 0, faces |-> <<>>, ctx |-> none] ELSE
+  LET maxv == nv + nss
+      r1 == DecSymsV(D0(nf, ev), [v \in 1..maxv |-> 0], -1, <<>>, syms, nsym, maxv)
+      ctx == [k \in 1..6 |-> CtxOf(r1.log, k - 1)]
+      d1 == r1.d IN
+  IF d1.out # "run" THEN [out |-> d1.out, np |-> 0, faces |-> <<>>, ctx |-> ctx] ELSE
+  LET d2 == StartFaces(d1, sb, nf) IN
+  IF d2.out # "run" THEN [out |-> d2.out, np |-> 0, faces |-> <<>>, ctx |-> ctx] ELSE
+  IF d2.faces # nf THEN [out |-> "rej:face-count", np |-> 0, faces |-> <<>>, ctx |-> ctx] ELSE
+  LET r == Compact(d2, d2.inval, Len(d2.vc)) IN
+  IF r.d.out # "run" THEN [out |-> r.d.out, np |-> 0, faces |-> <<>>, ctx |-> ctx]
+  ELSE [out |-> "acc", np |-> r.nvs, faces |-> [c \in 1..(3 * nf) |-> r.d.ctv[c - 1]], ctx |-> ctx]
+
 \* what C03 demands of an accepted connectivity: every face names three existing points
 ConnValid(r) == r.out = "acc" => \A i \in 1..Len(r.faces) : r.faces[i] \in 0..(r.np - 1)
 =============================================================================
